@@ -32,4 +32,6 @@ def obligations(tier):
     # ... and the running daemon never gives the mutex up, also not while draining after TERM (checked in the main-loop harness)
     from vlib import borrow
     obls += borrow("C16", ["select_timeout"], tier)
+    # bounce/N disappears before info/N: injectbounce() reports success only after bounce/N was really removed (shared with C14)
+    obls += borrow("C14", ["injectbounce"], tier)
     return obls
